@@ -298,7 +298,7 @@ func runControl(ts *rig.TestServer, c ctlCase) {
 			what = "owner-connection-closed"
 		}
 		run.Violation(fmt.Sprintf("control/victim-state-changed/%s/%s", what, c.Origin),
-			fmt.Sprintf("%s from %s in %s was refused (%d) but the victim changed: before %+v, after %+v", c.Method, c.Origin, c.State, status, before, after), wit)
+			fmt.Sprintf("%s with the stolen session id from %s in %s was answered %d and the victim changed: before %+v, after %+v", c.Method, c.Origin, c.State, status, before, after), wit)
 		return
 	}
 	if ok, why := victimAlive(v, st, state, r); !ok {
